@@ -35,10 +35,15 @@ typedef struct {
     size_t on_start_calls, on_stop_calls, on_eval_calls;
     size_t start_calls, stop_calls;  bool stop_arg;
     size_t close_calls;  int close_arg;
+    size_t ips_calls, ms_calls, reset_calls, hook_calls; int ms_flag; bool ms_stop; int hook_req; size_t srcs_dropped;
+    int sys_kind; size_t sys_started, sys_stopped, sys_ctx_started, sys_ctx_stopped, sys_tick, sys_pill;
+    size_t maprm_calls, ctxdereg_calls, fscleanup_calls, unrefp_calls; bool start_arg;
     size_t itr_get_calls, itr_rm_calls; bool itr_nonhead;      /* iterator accesses; nonhead: some access was not at position 0 */
     void *itr_elem;                                            /* element last returned by an iterator */
 } ghost_t;
 ghost_t g;
+size_t g_others_running;     /* number of OTHER modules of the context that are RUNNING (focus-object technique, DESIGN.md 2.6) */
+int g_ips_ret, g_ms_ret, g_maprm_ret, g_ctxdereg_ret;   /* outcomes of environment-dependent callees in this pre-state */
 struct _queue_itr *g_qit;     /* the (single) abstract queue iterator, allocated by the harness */
 char g_elem_obj[64];          /* every element handed out by an abstract iterator aliases this object (identity is not needed) */
 
